@@ -335,6 +335,27 @@ impl Property for Soundness {
                 stats.sample(10, || json!({"program": text, "outcome": run.outcome.short()}));
                 self.judge(&format!("`{text}`"), &run, stats).unwrap_or(Verdict::Pass)
             }
+            "sequence" => {
+                // several programs one after the other on this thread over one set of files that is written
+                // once: each is judged like a program of its own (whatever an earlier program of the sequence
+                // imported, checked or left behind)
+                let texts: Vec<&str> = case["texts"].as_array().map(|a| a.iter().filter_map(|t| t.as_str()).collect()).unwrap_or_default();
+                let joined = crate::genr::case::materialise(&texts.join("\u{1}"), case);
+                stats.label("sequences of programs over one set of files");
+                for (k, text) in joined.split('\u{1}').enumerate() {
+                    let run = exec::run_program(text, self.monitor());
+                    if matches!(run.outcome, Outcome::Rejected(_)) {
+                        continue;
+                    }
+                    self.nontrivial(text, &run, stats);
+                    if let Some(v) = self.judge(&format!("`{text}` (program {k} of a sequence over the same files: {:?})", case["files"]), &run, stats)
+                        && !matches!(v, Verdict::Pass)
+                    {
+                        return v;
+                    }
+                }
+                Verdict::Pass
+            }
             "session" => {
                 // inputs parsed and run one after the other into one interpreter, as a REPL or an embedding
                 // host does; the session goes on after a documented run-time error: whatever an input that
@@ -417,6 +438,49 @@ impl Property for Soundness {
 
 /// sessions in which an input fails with a documented error in the middle of an update of a cell, and
 /// later inputs go on using the cell (every fallible assignment operator x every way of holding a cell)
+/// files that use names of whoever imports them, imported by programs that declare those names at
+/// different types, as cells, as parameters, or not at all, one after the other and within one program
+pub fn import_sequences() -> Vec<Json> {
+    let files = json!({
+        "lib.sl": "value := k; pair := (k, k); twice := [k, k];",
+        "cells.sl": "seen := *counter; bump := () -> any { return *counter; };",
+        "arith.sl": "twice := k * 2; g := (x: int) -> int { return x + k; };",
+        "outer.sl": "inner := import \"@DIR@/lib.sl\"; v := inner.value;",
+    });
+    let programs = [
+        "k := 2; lib := import \"@DIR@/lib.sl\"; c := mut lib.value; c += 1; (*c, lib.pair, lib.twice[0] + 1)",
+        "k := \"s\"; lib := import \"@DIR@/lib.sl\"; c := mut lib.value; c += \"t\"; (*c, lib.pair, lib.twice[0] + \"u\")",
+        "f := (k: float) -> any { lib := import \"@DIR@/lib.sl\"; c := mut lib.value; c += 1.5; return (*c, lib.twice); }; f(2.5)",
+        "k := [1]; lib := import \"@DIR@/lib.sl\"; (lib.value + [2], std.len(lib.pair.0))",
+        "lib := import \"@DIR@/lib.sl\"; lib",
+        "k := 2; a := import \"@DIR@/lib.sl\"; f := (k: string) -> any { b := import \"@DIR@/lib.sl\"; return b.value + \"x\"; }; (a.value + 1, f(\"s\"))",
+        "counter := mut 5; lib := import \"@DIR@/cells.sl\"; (lib.seen + 1, lib.bump())",
+        "counter := mut \"s\"; lib := import \"@DIR@/cells.sl\"; (lib.seen + \"t\", lib.bump())",
+        "f := (counter: mut float) -> any { lib := import \"@DIR@/cells.sl\"; return lib.seen + 0.5; }; f(mut 1.5)",
+        "k := 3; lib := import \"@DIR@/arith.sl\"; (lib.twice, lib.g(1))",
+        "k := \"s\"; lib := import \"@DIR@/arith.sl\"; (lib.twice, lib.g(1))",
+        "f := (k: int) -> int { lib := import \"@DIR@/arith.sl\"; return lib.twice; }; g := (k: string) -> any { lib := import \"@DIR@/arith.sl\"; return lib.twice; }; (f(21), g(\"s\"))",
+        "k := 2; lib := import \"@DIR@/outer.sl\"; lib.v + 1",
+        "k := \"s\"; lib := import \"@DIR@/outer.sl\"; lib.v + \"t\"",
+    ];
+    let mut out = vec![];
+    let n = programs.len();
+    for shift in 0..n {
+        let texts: Vec<&str> = (0..n).map(|i| programs[(i + shift) % n]).collect();
+        out.push(json!({"kind": "sequence", "texts": texts, "files": files}));
+        let back: Vec<&str> = texts.iter().rev().copied().collect();
+        out.push(json!({"kind": "sequence", "texts": back, "files": files}));
+    }
+    for i in 0..n {
+        for j in 0..n {
+            if i != j {
+                out.push(json!({"kind": "sequence", "texts": [programs[i], programs[j], programs[i]], "files": files}));
+            }
+        }
+    }
+    out
+}
+
 pub fn error_sessions() -> Vec<Json> {
     let holders = [
         ("c := mut 7;", "c"),
@@ -474,6 +538,34 @@ pub fn run(session: &Session, prop: &'static Soundness) -> i32 {
             cases.push(json!({"kind": "filter-to", "t": t, "w": w}));
         }
     }
+    // a cell made without a declared type from an expression whose static type is wider than its value:
+    // the cell has the static type, whatever is later stored in it and however the cell itself is tested
+    for src in ["(x: int|float)", "(x: any)", "(x: int|string|[int])", "(x: [int]|[float])"] {
+        let wide = src.trim_start_matches("(x: ").trim_end_matches(')');
+        let paren = if wide.contains('|') { format!("({wide})") } else { wide.to_string() };
+        let (arg, other) = match wide {
+            "int|float" => ("1", "2.5"),
+            "any" => ("1", "\"s\""),
+            "int|string|[int]" => ("1", "[2]"),
+            _ => ("[1]", "[2.5]"),
+        };
+        for body in [
+            format!("m := mut x; return match m {{ c: mut {paren} => 1, }};"),
+            format!("m := mut x; m = {other}; return match m {{ c: mut {paren} => *c, }};"),
+            format!("m := mut x; m = {other}; if c: mut int = m {{ return *c + 1; }} return 0;"),
+            format!("m := mut x; r := [m]~ ? mut {paren} $]; return (std.len(r), *r[0]);"),
+            format!("m := mut x; n := mut {wide} {other}; ms := [m, n]; ms[0] = {other}; return (*ms[0], *ms[1]);"),
+            format!("mk := (v: {wide}) -> mut {paren} {{ return mut v; }}; m := mk(x); m = {other}; return *m;"),
+            format!("m := mut [x]; m += [{other}]; return *m;"),
+            format!("t := (mut x, 1); c := t.0; c = {other}; return match c {{ k: mut {paren} => *k, }};"),
+        ] {
+            cases.push(json!({"kind": "program", "text": format!("f := {src} -> any {{ {body} }}; (f({arg}), f({other}))")}));
+            cases.push(json!({"kind": "program", "text": format!("x := [{arg}, {other}][*(mut int 0)]; w := () -> any {{ {body} }}; w()")}));
+        }
+    }
+    let sequences = import_sequences();
+    session.set_extra("import_sequence_cases", json!(sequences.len()));
+    cases.extend(sequences);
     // every pure std function applied to parameters of the catalogue types: the declared result
     // type is what the checker believes about the call
     let small: Vec<usize> = CATALOGUE
